@@ -1,6 +1,713 @@
+/-
+  C14 — subsetting while reading equals reading everything and then filtering.
+
+  Layers.
+  (1) Specification on `Biom.Table`: `maskTable`, `filterAxis` (keep the requested IDs, file order),
+      `dropEmpty` (drop the all-zero vectors of an axis), `subsetSpec`.
+  (2) HDF5: a logical view `H5` of the file (per axis: ids, metadata as `axis_load` returns it, the
+      three datasets of `<axis>/matrix`; `shape`, `type`).  `fromFile` = `Table.from_hdf5(h5grp)`;
+      `h5Subset` = `Table.from_hdf5(h5grp, ids, axis)` (default path: `_get_ids`, `_subset_metadata`,
+      `indptr` range extraction with its `sorted`, `cumsum`, `hstack`, construction, final filter on
+      the other axis); `h5SubsetNoMd` = the `subset_with_metadata=False` path; `parseH5` =
+      `parse_biom_table(handle, ids=…)` (swallows the reader's `ValueError`).
+  (3) JSON: a document `Doc` (rows/columns records, shape, list of triples, type).
+      `docToTable` = `Table.from_json`; `jsonSubset` = `parse_biom_table(text, ids=…)`;
+      `getAxisIndices`, `directSliceData`/`sliceTriples`, `cmdJson` = `_subset_table` on JSON at
+      the level of records and triples.
+  (4) Raw text (`List Char`): `directParseKey`, `stripF`, `sliceDataText` (both axes),
+      `directSliceDataText`, `cmdJsonText` (the stitching) — executable transcriptions that the
+      harness runs against the real functions on the real texts; theorems about them are limited to
+      the field level (`sliceFields`), see Props.
+  `holds` is the declarative predicate evaluated on what the REAL code returned.
+-/
 import BiomModel.Codec
 open Lean
+
 namespace Biom.C14
-/-- stub: not built yet -/
-def handle (_req : Json) : Codec.R Json := .error "C14: model not built yet"
+
+variable {α : Type}
+
+/-! ## (1) Specification layer -/
+
+/-- keep the positions of axis `ax` whose mask bit is set (IDs, vectors, metadata); the other axis
+is untouched -/
+def maskTable (t : Table α) (ax : Axis) (mask : List Bool) : Table α :=
+  match ax with
+  | .obs => { t with obs := filterMask t.obs mask, rows := filterMask t.rows mask,
+                     omd := t.omd.map (filterMask · mask) }
+  | .samp => { t with samp := filterMask t.samp mask, rows := t.rows.map (filterMask · mask),
+                      smd := t.smd.map (filterMask · mask) }
+
+/-- `np.isin(source_ids, desired_ids)`: one bit per source ID, in source order -/
+def idMask (src req : List Id) : List Bool := src.map (fun i => req.contains i)
+
+/-- load-all-then-filter: the vectors of the requested IDs, in the table's own order -/
+def filterAxis (t : Table α) (req : List Id) (ax : Axis) : Table α :=
+  maskTable t ax (idMask (t.ids ax) req)
+
+/-- the vectors of an axis, in ID order: rows, or columns -/
+def vecs (t : Table α) : Axis → List (List α)
+  | .obs => t.rows
+  | .samp => transposeGrid t.samp.length t.rows
+
+/-- `np.any(vals)` -/
+def anyNZ [Zero α] [DecidableEq α] (v : List α) : Bool := v.any (fun x => decide (x ≠ 0))
+
+/-- `t.filter(lambda vals, id_, md: np.any(vals), axis=ax)` -/
+def dropEmpty [Zero α] [DecidableEq α] (t : Table α) (ax : Axis) : Table α :=
+  maskTable t ax ((vecs t ax).map anyNZ)
+
+def dropEmptyOther [Zero α] [DecidableEq α] (t : Table α) (ax : Axis) : Table α :=
+  dropEmpty t ax.other
+
+/-! ## (2) HDF5 -/
+
+/-- one axis group of the file, as `axis_load` and the matrix datasets present it -/
+structure AxisGrp (α : Type) where
+  ids : List Id
+  /-- `md if any(md) else None` -/
+  md : Option (List Md)
+  indptr : List Nat
+  indices : List Nat
+  data : List α
+  deriving Repr, DecidableEq, BEq
+
+structure H5 (α : Type) where
+  obs : AxisGrp α
+  samp : AxisGrp α
+  /-- attribute `shape` -/
+  shape : Nat × Nat
+  ttype : Option String
+  deriving Repr, DecidableEq, BEq
+
+def H5.grp (f : H5 α) : Axis → AxisGrp α
+  | .obs => f.obs
+  | .samp => f.samp
+
+def dimOf (shape : Nat × Nat) : Axis → Nat
+  | .obs => shape.1
+  | .samp => shape.2
+
+/-- `x or None` for a metadata list -/
+def orNone (md : Option (List Md)) : Option (List Md) :=
+  match md with
+  | some [] => none
+  | m => m
+
+/-- `Table(csr_matrix/csc_matrix((data, indices, indptr), shape), obs_ids, samp_ids, obs_md or None,
+samp_md or None, type=…)`; scipy's contract: the dense content is `CS.toDense` -/
+def mkTable [Zero α] (ax : Axis) (cs : CS α) (obsIds sampIds : List Id)
+    (omd smd : Option (List Md)) (ttype : Option String) : Table α :=
+  { obs := obsIds, samp := sampIds,
+    rows := match ax with
+      | .obs => cs.toDense
+      | .samp => transposeGrid cs.nMinor cs.toDense,
+    omd := orNone omd, smd := orNone smd, ttype := ttype }
+
+/-- the compressed matrix of the `ax` group under the file's `shape` attribute -/
+def csOf (f : H5 α) (ax : Axis) : CS α :=
+  { nMajor := dimOf f.shape ax, nMinor := dimOf f.shape ax.other,
+    indptr := (f.grp ax).indptr, indices := (f.grp ax).indices, data := (f.grp ax).data }
+
+/-- `Table.from_hdf5(h5grp, axis=ax)`: everything, from the `ax` group -/
+def fromFile [Zero α] (f : H5 α) (ax : Axis) : Table α :=
+  mkTable ax (csOf f ax) f.obs.ids f.samp.ids f.obs.md f.samp.md f.ttype
+
+/-- `_get_ids` -/
+def getIds (src : List Id) : Option (List Id) → Except Err (List Id × List Bool)
+  | none => .ok (src, src.map (fun _ => true))
+  | some d =>
+    let idx := idMask src d
+    let ids := filterMask src idx
+    -- `ids.shape != desired_ids.shape`: an unknown OR a repeated requested ID
+    if ids.length != d.length then .error .value else .ok (ids, idx)
+
+/-- `_subset_metadata`: `if md: md = list(np.asarray(md)[np.where(idx)])` -/
+def subsetMd (md : Option (List Md)) (idx : List Bool) : Option (List Md) :=
+  match md with
+  | none => none
+  | some [] => some []
+  | some m => some (filterMask m idx)
+
+/-- `np.where(idx)[0]`: the positions of the set bits, counted from `k` -/
+def posFrom : Nat → List Bool → List Nat
+  | _, [] => []
+  | k, b :: bs => if b then k :: posFrom (k + 1) bs else posFrom (k + 1) bs
+
+def mapE {β γ : Type} (f : β → Except Err γ) : List β → Except Err (List γ)
+  | [] => .ok []
+  | x :: xs =>
+    match f x with
+    | .error e => .error e
+    | .ok y =>
+      match mapE f xs with
+      | .error e => .error e
+      | .ok ys => .ok (y :: ys)
+
+/-- `(h5_indptr[i], h5_indptr[i+1])`, bounds-checked -/
+def readRange (indptr : List Nat) (i : Nat) : Except Err (Nat × Nat) :=
+  match getE indptr i with
+  | .error e => .error e
+  | .ok s =>
+    match getE indptr (i + 1) with
+    | .error e => .error e
+    | .ok e => .ok (s, e)
+
+def pairLe (a b : Nat × Nat) : Bool := a.1 < b.1 || (a.1 == b.1 && a.2 ≤ b.2)
+
+/-- Python `sorted` on `(start, end)` tuples (stable, lexicographic) -/
+def sortRanges (l : List (Nat × Nat)) : List (Nat × Nat) := l.mergeSort pairLe
+
+/-- `cumsum` with a running total -/
+def cumsum : Nat → List Nat → List Nat
+  | _, [] => []
+  | acc, x :: xs => (acc + x) :: cumsum (acc + x) xs
+
+/-- `xs[start:end]` -/
+def sliceL {β : Type} (xs : List β) (se : Nat × Nat) : List β := (xs.drop se.1).take (se.2 - se.1)
+
+/-- the new `(data, indices, indptr)` built from the kept index ranges -/
+def subCS (g : AxisGrp α) (ranges : List (Nat × Nat)) (nMajor nMinor : Nat) : CS α :=
+  { nMajor := nMajor, nMinor := nMinor,
+    indptr := 0 :: cumsum 0 (ranges.map (fun se => se.2 - se.1)),
+    indices := (ranges.map (sliceL g.indices)).flatten,
+    data := (ranges.map (sliceL g.data)).flatten }
+
+/-- `Table.from_hdf5(h5grp, ids=req, axis=ax)` — the default (metadata-carrying) subset path -/
+def h5Subset [Zero α] [DecidableEq α] (f : H5 α) (req : List Id) (ax : Axis) : Except Err (Table α) :=
+  match getIds f.obs.ids (if ax = .obs then some req else none) with
+  | .error e => .error e
+  | .ok (obsIds, obsIdx) =>
+    match getIds f.samp.ids (if ax = .samp then some req else none) with
+    | .error e => .error e
+    | .ok (sampIds, sampIdx) =>
+      let omd := subsetMd f.obs.md obsIdx
+      let smd := subsetMd f.samp.md sampIdx
+      let idx := if ax = .samp then sampIdx else obsIdx
+      let keep := posFrom 0 idx
+      let g := f.grp ax
+      match mapE (readRange g.indptr) keep with
+      | .error e => .error e
+      | .ok ranges =>
+        let ranges := sortRanges ranges
+        -- `np.hstack([])` raises ValueError
+        if ranges.isEmpty then .error .value else
+        let nMajor := match ax with | .obs => obsIds.length | .samp => sampIds.length
+        let nMinor := match ax with | .obs => sampIds.length | .samp => obsIds.length
+        let t := mkTable ax (subCS g ranges nMajor nMinor) obsIds sampIds omd smd f.ttype
+        -- "filter out any empty samples or observations which may exist due to subsetting"
+        .ok (dropEmpty t ax.other)
+
+/-- `Table.from_hdf5(h5grp, ids=req, axis=ax, subset_with_metadata=False)`:
+`ids` becomes a set; kept in file order; `len(to_keep) != len(ids)` refuses an unknown ID;
+no metadata, no type, NO emptiness filter, ranges not sorted -/
+def h5SubsetNoMd [Zero α] (f : H5 α) (req : List Id) (ax : Axis) : Except Err (Table α) :=
+  let g := f.grp ax
+  let idx := idMask g.ids req
+  let keep := posFrom 0 idx
+  if keep.length != req.eraseDups.length then .error .value else
+  match mapE (readRange g.indptr) keep with
+  | .error e => .error e
+  | .ok ranges =>
+    -- `np.concatenate([])` raises ValueError
+    if ranges.isEmpty then .error .value else
+    let kept := filterMask g.ids idx
+    match ax with
+    | .samp => .ok (mkTable .samp (subCS g ranges keep.length f.obs.ids.length) f.obs.ids kept none none none)
+    | .obs => .ok (mkTable .obs (subCS g ranges keep.length f.samp.ids.length) kept f.samp.ids none none none)
+
+/-- `parse_biom_table(handle, ids=req, axis=ax)`: the reader's `ValueError` is swallowed and the
+handle is then given to `json.loads`, which raises `TypeError` -/
+def parseH5 [Zero α] [DecidableEq α] (f : H5 α) (req : List Id) (ax : Axis) : Except Err (Table α) :=
+  match h5Subset f req ax with
+  | .error .value => .error .type
+  | r => r
+
+/-! ## (3) JSON document -/
+
+structure Rec where
+  id : Id
+  /-- `"metadata": null` or an object -/
+  md : Option Md
+  deriving Repr, DecidableEq, BEq
+
+structure Triple (α : Type) where
+  r : Nat
+  c : Nat
+  v : α
+  deriving Repr, DecidableEq, BEq
+
+structure Doc (α : Type) where
+  rows : List Rec
+  cols : List Rec
+  shape : Nat × Nat
+  data : List (Triple α)
+  ttype : Option String
+  deriving Repr, DecidableEq, BEq
+
+def Doc.recs (d : Doc α) : Axis → List Rec
+  | .obs => d.rows
+  | .samp => d.cols
+
+/-- `_cast_metadata`: all `None` ⇒ `None`, otherwise `None` entries become empty dicts -/
+def castMd (recs : List Rec) : Option (List Md) :=
+  if recs.all (fun r => r.md.isNone) then none else some (recs.map (fun r => r.md.getD []))
+
+/-- value of a cell: `coo_matrix(...).tocsr()` sums the entries given for one position -/
+def cellOf [Zero α] [Add α] (data : List (Triple α)) (i j : Nat) : α :=
+  sumL ((data.filter (fun t => t.r == i && t.c == j)).map (·.v))
+
+/-- `Table.from_json` for a sparse document -/
+def docToTable [Zero α] [Add α] (d : Doc α) : Except Err (Table α) :=
+  if d.data.any (fun t => decide (d.shape.1 ≤ t.r) || decide (d.shape.2 ≤ t.c)) then .error .value
+  else if d.shape.1 != d.rows.length || d.shape.2 != d.cols.length then .error .tableException
+  else .ok { obs := d.rows.map (·.id), samp := d.cols.map (·.id),
+             rows := (List.range d.shape.1).map (fun i => (List.range d.shape.2).map (cellOf d.data i)),
+             omd := castMd d.rows, smd := castMd d.cols, ttype := d.ttype }
+
+/-- `parse_biom_table(json, ids=req, axis=ax)`: load everything, `filter(id_ in ids)`, then
+`filter(np.any(vals))` on the other axis.  Unknown IDs are silently ignored here. -/
+def jsonSubset [Zero α] [Add α] [DecidableEq α] (d : Doc α) (req : List Id) (ax : Axis) :
+    Except Err (Table α) :=
+  match docToTable d with
+  | .error e => .error e
+  | .ok t => .ok (dropEmpty (filterAxis t req ax) ax.other)
+
+/-- `get_axis_indices`: `KeyError` unless every requested ID is present; positions of the
+requested IDs; the records standing at those positions -/
+def getAxisIndices (d : Doc α) (req : List Id) (ax : Axis) : Except Err (List Nat × List Rec) :=
+  let recs := d.recs ax
+  let allIds := recs.map (·.id)
+  if !(req.all (fun i => allIds.contains i)) then .error .key else
+  let idxs := posFrom 0 (idMask allIds req)
+  .ok (idxs, (List.range recs.length).filterMap (fun i => if idxs.contains i then recs[i]? else none))
+
+/-- `sorted(set(to_keep))` -/
+def sortedSet (l : List Nat) : List Nat := (l.eraseDups).mergeSort (fun a b => decide (a ≤ b))
+
+/-- `_direct_slice_data_sparse_obs/_samp` at triple level: keep the triples whose row (column)
+index is kept and rename that index to its rank among the sorted kept indices -/
+def sliceTriples (data : List (Triple α)) (keep : List Nat) (ax : Axis) : List (Triple α) :=
+  let sk := sortedSet keep
+  match ax with
+  | .obs => (data.filter (fun t => sk.contains t.r)).map (fun t => { t with r := sk.idxOf t.r })
+  | .samp => (data.filter (fun t => sk.contains t.c)).map (fun t => { t with c := sk.idxOf t.c })
+
+def listMax : List Nat → Nat := fun l => l.foldl max 0
+
+/-- `direct_slice_data`: bounds checks, new shape (`len(to_keep)` of the LIST), sliced triples -/
+def directSliceData (d : Doc α) (keep : List Nat) (ax : Axis) :
+    Except Err (List (Triple α) × (Nat × Nat)) :=
+  -- `min(to_keep)` of an empty list raises ValueError
+  if keep.isEmpty then .error .value else
+  match ax with
+  | .obs =>
+    if listMax keep ≥ d.shape.1 then .error .index
+    else .ok (sliceTriples d.data keep .obs, (keep.length, d.shape.2))
+  | .samp =>
+    if listMax keep ≥ d.shape.2 then .error .index
+    else .ok (sliceTriples d.data keep .samp, (d.shape.1, keep.length))
+
+/-- `_subset_table` on JSON: the document described by the stitched text -/
+def cmdJsonDoc (d : Doc α) (req : List Id) (ax : Axis) : Except Err (Doc α) :=
+  match getAxisIndices d req ax with
+  | .error e => .error e
+  | .ok (idxs, recs) =>
+    match directSliceData d idxs ax with
+    | .error e => .error e
+    | .ok (data, shape) =>
+      match ax with
+      | .obs => .ok { d with rows := recs, data := data, shape := shape }
+      | .samp => .ok { d with cols := recs, data := data, shape := shape }
+
+/-- the command's JSON output loaded again with `Table.from_json` -/
+def cmdJson [Zero α] [Add α] (d : Doc α) (req : List Id) (ax : Axis) : Except Err (Table α) :=
+  match cmdJsonDoc d req ax with
+  | .error e => .error e
+  | .ok out => docToTable out
+
+/-! ## (4) Raw text -/
+
+abbrev Text := List Char
+
+def jsonStart : List Char := ['0', '1', '2', '3', '4', '5', '6', '7', '8', '9', '{', '[', '"']
+def jsonOpen : List Char := ['[', '{']
+def jsonClose : List Char := [']', '}']
+
+/-- `str.find`: index of the first occurrence of `pat` -/
+def findSub (pat : Text) : Text → Nat → Option Nat
+  | [], i => if pat.isEmpty then some i else none
+  | c :: cs, i => if pat.isPrefixOf (c :: cs) then some i else findSub pat cs (i + 1)
+
+/-- `while s[cur] not in stop: cur += 1` — running off the end is an `IndexError` -/
+def skipTo (stop : Char → Bool) : Text → Nat → Except Err Nat
+  | [], _ => .error .index
+  | c :: cs, i => if stop c then .ok i else skipTo stop cs (i + 1)
+
+/-- the bracket/quote stack loop of `direct_parse_key` (NOT string-aware: a bracket inside a
+string pushes/pops, an escaped quote toggles) -/
+def scanObj : Text → List Char → Nat → Except Err Nat
+  | _, [], i => .ok i
+  | [], _ :: _, _ => .error .index
+  | c :: cs, top :: st, i =>
+    if c == '"' then
+      (if top == '"' then scanObj cs st (i + 1) else scanObj cs (c :: top :: st) (i + 1))
+    else if jsonClose.contains c then scanObj cs st (i + 1)
+    else if jsonOpen.contains c then scanObj cs (c :: top :: st) (i + 1)
+    else scanObj cs (top :: st) (i + 1)
+
+/-- `direct_parse_key(biom_str, key)`: the text `"key": value`, or `""` -/
+def directParseKey (s : Text) (key : Text) : Except Err Text :=
+  match findSub (['"'] ++ key ++ ['"', ':']) s 0 with
+  | none => .ok []
+  | some base =>
+    let start := base + key.length + 3
+    match skipTo (fun c => jsonStart.contains c) (s.drop start) start with
+    | .error e => .error e
+    | .ok cur =>
+      match s[cur]? with
+      | none => .error .index
+      | some c0 =>
+        if !(jsonOpen.contains c0) then
+          match skipTo (fun c => c == ',' || c == '{' || c == '}') (s.drop cur) cur with
+          | .error e => .error e
+          | .ok stop => .ok ((s.drop base).take (stop - base))
+        else
+          match scanObj (s.drop (cur + 1)) [c0] (cur + 1) with
+          | .error e => .error e
+          | .ok stop => .ok ((s.drop base).take (stop - base))
+
+def stripSet : List Char := ['[', ']', ' ', '\n', '\t']
+
+/-- `x.strip("[] \n\t")` -/
+def stripF (x : Text) : Text :=
+  ((x.dropWhile (fun c => stripSet.contains c)).reverse.dropWhile (fun c => stripSet.contains c)).reverse
+
+/-- `str.split(c)` for a one-character separator -/
+def split1 (sep : Char) : Text → Text → List Text
+  | [], acc => [acc.reverse]
+  | x :: rest, acc => if x == sep then acc.reverse :: split1 sep rest [] else split1 sep rest (x :: acc)
+
+/-- `str.split(ab)` for a two-character separator -/
+def split2 (a b : Char) : Text → Text → List Text
+  | [], acc => [acc.reverse]
+  | [x], acc => [(x :: acc).reverse]
+  | x :: y :: rest, acc =>
+    if x == a && y == b then acc.reverse :: split2 a b rest [] else split2 a b (y :: rest) (x :: acc)
+
+def natText (n : Nat) : Text := (toString n).toList
+
+/-- `remap_lookup = {str(v): i for i, v in enumerate(sorted(to_keep))}`, then `lookup.get(field)` -/
+def rankOfText (sk : List Nat) (field : Text) : Option Nat :=
+  let keys := sk.map natText
+  let i := keys.idxOf field
+  if i < keys.length then some i else none
+
+def joinWith (sep : Text) : List Text → Text
+  | [] => []
+  | [x] => x
+  | x :: y :: rest => x ++ sep ++ joinWith sep (y :: rest)
+
+/-- one record of the data field after `split('],')`: `none` = skipped, `some (.error _)` = the
+unpacking of three fields failed -/
+def sliceRecord (sk : List Nat) (ax : Axis) (rcv : Text) : Option (Except Err Text) :=
+  if (stripF rcv).isEmpty then none else
+  -- the test field: obs strips the record and splits; samp splits and strips every field
+  let test : Except Err Text :=
+    match ax with
+    | .obs => match split1 ',' (stripF rcv) [] with
+      | [r, _, _] => .ok r
+      | _ => .error .value
+    | .samp => match (split1 ',' rcv []).map stripF with
+      | [_, c, _] => .ok c
+      | _ => .error .value
+  match test with
+  | .error e => some (.error e)
+  | .ok fld =>
+    match rankOfText sk fld with
+    | none => none
+    | some _ =>
+      -- `_remap_axis_sparse_*`: split the raw record again, strip every field
+      match (split1 ',' rcv []).map stripF with
+      | [r, c, v] =>
+        (match ax with
+         | .obs => match rankOfText sk r with
+           | some k => some (.ok (natText k ++ [','] ++ c ++ [','] ++ v))
+           | none => some (.error .key)
+         | .samp => match rankOfText sk c with
+           | some k => some (.ok (r ++ [','] ++ natText k ++ [','] ++ v))
+           | none => some (.error .key))
+      | _ => some (.error .value)
+
+def collectRecords : List (Option (Except Err Text)) → Except Err (List Text)
+  | [] => .ok []
+  | none :: rest => collectRecords rest
+  | some (.error e) :: _ => .error e
+  | some (.ok x) :: rest =>
+    match collectRecords rest with
+    | .error e => .error e
+    | .ok xs => .ok (x :: xs)
+
+/-- `_direct_slice_data_sparse_obs/_samp(data, to_keep)` on the raw text of the data field -/
+def sliceDataText (data : Text) (keep : List Nat) (ax : Axis) : Except Err Text :=
+  let sk := sortedSet keep
+  match collectRecords ((split2 ']' ',' data []).map (sliceRecord sk ax)) with
+  | .error e => .error e
+  | .ok [] => .ok ['[', ']']
+  | .ok recs => .ok (['[', '['] ++ joinWith [']', ',', '['] recs ++ [']', ']'])
+
+def isSpace (c : Char) : Bool := c == ' ' || c == '\n' || c == '\t' || c == '\r'
+
+/-- `int(text)` for an unsigned decimal with surrounding blanks (anything else: `ValueError`) -/
+def pyInt (x : Text) : Except Err Nat :=
+  let core := ((x.dropWhile isSpace).reverse.dropWhile isSpace).reverse
+  if core.isEmpty || !(core.all Char.isDigit) then .error .value
+  else .ok (core.foldl (fun n c => 10 * n + (c.toNat - '0'.toNat)) 0)
+
+/-- `direct_slice_data(biom_str, to_keep, axis)` on raw text -/
+def directSliceDataText (s : Text) (keep : List Nat) (ax : Axis) : Except Err Text :=
+  match directParseKey s "shape".toList with
+  | .error e => .error e
+  | .ok shapeKv =>
+  if shapeKv.isEmpty then .error .value else
+  match directParseKey s "data".toList with
+  | .error e => .error e
+  | .ok dataFields =>
+  if dataFields.isEmpty then .error .value else
+  match directParseKey s "matrix_type".toList with
+  | .error e => .error e
+  | .ok mt =>
+  if mt.isEmpty then .error .value else
+  let rawShape := ((split1 ':' shapeKv []).getLast?.getD []).filter (fun c => c != '[' && c != ']')
+  match mapE pyInt (split1 ',' rawShape []) with
+  | .error e => .error e
+  | .ok [nRows, nCols] =>
+    let dataStart := match findSub ['['] dataFields 0 with | some i => i + 1 | none => 0
+    let fields := (dataFields.drop dataStart).take (dataFields.length - 1 - dataStart)
+    if keep.isEmpty then .error .value else
+    let bound := match ax with | .obs => nRows | .samp => nCols
+    if listMax keep ≥ bound then .error .index else
+    let newShape := match ax with
+      | .obs => "[".toList ++ natText keep.length ++ ", ".toList ++ natText nCols ++ "]".toList
+      | .samp => "[".toList ++ natText nRows ++ ", ".toList ++ natText keep.length ++ "]".toList
+    match sliceDataText fields keep ax with
+    | .error e => .error e
+    | .ok newData => .ok ("\"data\": ".toList ++ newData ++ ", \"shape\": ".toList ++ newShape)
+  | .ok _ => .error .value
+
+/-- the generator of `_subset_table`, joined: `idxs`/`axisMd` are what `get_axis_indices` returned
+(it parses with `json.loads`/`json.dumps`, external) -/
+def cmdJsonText (s : Text) (idxs : List Nat) (axisMd : Text) (ax : Axis) : Except Err Text :=
+  match directSliceDataText s idxs ax with
+  | .error e => .error e
+  | .ok newData =>
+    let keys := ["id", "format", "format_url", "type", "generated_by", "date", "matrix_type",
+                 "matrix_element_type"]
+    match mapE (fun k => directParseKey s k.toList) keys with
+    | .error e => .error e
+    | .ok parts =>
+      match directParseKey s (match ax with | .obs => "columns".toList | .samp => "rows".toList) with
+      | .error e => .error e
+      | .ok otherAxis =>
+        .ok (['{'] ++ (parts.map (· ++ [','])).flatten ++ newData ++ [','] ++ axisMd ++ [','] ++
+             otherAxis ++ ['}'])
+
+/-- the field level of the slicer: the data field after both splits, every field still carrying
+its padding (brackets, blanks, newlines) -/
+def sliceFields (render : Nat → Text) (recs : List (Text × Text × Text)) (sk : List Nat) (ax : Axis) :
+    List (Text × Text × Text) :=
+  let keys := sk.map render
+  match ax with
+  | .obs => (recs.filter (fun f => keys.contains (stripF f.1))).map
+      (fun f => (render (keys.idxOf (stripF f.1)), stripF f.2.1, stripF f.2.2))
+  | .samp => (recs.filter (fun f => keys.contains (stripF f.2.1))).map
+      (fun f => (stripF f.1, render (keys.idxOf (stripF f.2.1)), stripF f.2.2))
+
+/-! ## The property, on observations -/
+
+inductive Variant where
+  | h5 | h5nomd | parseH5 | cmdH5 | jsonParse | cmdJson
+  deriving Repr, DecidableEq, BEq
+
+/-- variants documented to drop other-axis vectors that became all-zero -/
+def Variant.drops : Variant → Bool
+  | .h5 | .parseH5 | .cmdH5 | .jsonParse => true
+  | .h5nomd | .cmdJson => false
+
+/-- the HDF5 reader (both variants) and the command refuse an unknown ID -/
+def Variant.refusesUnknown : Variant → Bool
+  | .jsonParse => false
+  | _ => true
+
+def Variant.noMd : Variant → Bool
+  | .h5nomd => true
+  | _ => false
+
+/-- cell addressed by (ID on `ax`, ID on the other axis) -/
+def cellA (t : Table α) (ax : Axis) (k o : Id) : Option α :=
+  match ax with
+  | .obs => t.cell? k o
+  | .samp => t.cell? o k
+
+def nzCell [Zero α] [DecidableEq α] (t : Table α) (ax : Axis) (k o : Id) : Bool :=
+  match cellA t ax k o with
+  | some v => decide (v ≠ 0)
+  | none => false
+
+/-- requested IDs present in the file, in FILE order -/
+def keptIds (full : Table α) (req : List Id) (ax : Axis) : List Id :=
+  (full.ids ax).filter (fun i => req.contains i)
+
+def mdClause (full r : Table α) (a : Axis) : Bool :=
+  (r.ids a).all (fun k => r.mdOf? a k == full.mdOf? a k)
+
+/-- clauses demanded of a returned table -/
+def okClauses [Zero α] [DecidableEq α] (full : Table α) (req : List Id) (ax : Axis) (v : Variant)
+    (r : Table α) : List (String × Bool) :=
+  let kept := keptIds full req ax
+  let oth := ax.other
+  [ ("ids-axis: requested IDs in file order", r.ids ax == kept),
+    ("ids-other: other axis (minus all-zero vectors where documented)",
+      r.ids oth == (if v.drops then (full.ids oth).filter (fun o => kept.any (fun k => nzCell full ax k o))
+                    else full.ids oth)),
+    ("cells: every cell equals the file's cell for the same IDs",
+      (r.ids ax).all (fun k => (r.ids oth).all (fun o =>
+        (cellA r ax k o).isSome && cellA r ax k o == cellA full ax k o))),
+    ("md-axis: metadata by ID on the subset axis",
+      if v.noMd then (r.md ax).isNone else mdClause full r ax),
+    ("md-other: metadata by ID on the other axis",
+      if v.noMd then (r.md oth).isNone else mdClause full r oth),
+    ("type", v.noMd || r.ttype == full.ttype),
+    ("wf: result is a well-formed table", r.wfb) ]
+
+def firstFailing : List (String × Bool) → Codec.Verdict
+  | [] => none
+  | (c, b) :: rest => if b then firstFailing rest else some c
+
+/-- `full` = the table obtained by loading the whole file; `res` = what the subsetting read returned -/
+def verdict [Zero α] [DecidableEq α] (full : Table α) (req : List Id) (ax : Axis) (v : Variant)
+    (res : Except Err (Table α)) : Codec.Verdict :=
+  if !(req.all (fun i => (full.ids ax).contains i)) then
+    (if v.refusesUnknown then
+      (match res with | .error _ => none | .ok _ => some "unknown-id: request must be refused")
+     else none)
+  else if req.isEmpty || !(decide req.Nodup) then none   -- outside the property's quantifier
+  else match res with
+    | .error _ => some "error: a valid request was refused"
+    | .ok r => firstFailing (okClauses full req ax v r)
+
+def holds [Zero α] [DecidableEq α] (full : Table α) (req : List Id) (ax : Axis) (v : Variant)
+    (res : Except Err (Table α)) : Bool :=
+  (verdict full req ax v res).isNone
+
+/-! ## JSON glue -/
+open Codec
+
+def asVariant (s : String) : R Variant :=
+  match s with
+  | "h5" => pure .h5 | "h5nomd" => pure .h5nomd | "parseh5" => pure .parseH5 | "cmdh5" => pure .cmdH5
+  | "jsonparse" => pure .jsonParse | "cmdjson" => pure .cmdJson
+  | s => .error s!"bad variant {s}"
+
+def asGrp (j : Json) : R (AxisGrp Rat) := do
+  pure { ids := (← listF asStr j "ids"), md := (← optF (asList asMd) j "md"),
+         indptr := (← listF asNat j "indptr"), indices := (← listF asNat j "indices"),
+         data := (← listF asRat j "data") }
+
+def asShape (j : Json) : R (Nat × Nat) := do
+  match (← asList asNat j) with
+  | [a, b] => pure (a, b)
+  | _ => .error "shape"
+
+def asH5 (j : Json) : R (H5 Rat) := do
+  pure { obs := (← asGrp (← fld j "observation")), samp := (← asGrp (← fld j "sample")),
+         shape := (← asShape (← fld j "shape")), ttype := (← optF asStr j "type") }
+
+def asRec (j : Json) : R Rec := do
+  pure { id := (← strF j "id"), md := (← optF asMd j "md") }
+
+def asTriple (j : Json) : R (Triple Rat) := do
+  match (← asArr j) with
+  | [r, c, v] => pure { r := (← asNat r), c := (← asNat c), v := (← asRat v) }
+  | _ => .error "triple"
+
+def asDoc (j : Json) : R (Doc Rat) := do
+  pure { rows := (← listF asRec j "rows"), cols := (← listF asRec j "columns"),
+         shape := (← asShape (← fld j "shape")), data := (← listF asTriple j "data"),
+         ttype := (← optF asStr j "type") }
+
+def asRes (j : Json) : R (Except Err (Table Rat)) := do
+  match optFld j "ok" with
+  | some t => pure (.ok (← asTable t))
+  | none => pure (.error (asErr (← strF j "error")))
+
+def resToJson : Except Err (Table Rat) → Json
+  | .ok t => Json.mkObj [("ok", tableToJson t)]
+  | .error e => errToJson e
+
+def textResToJson : Except Err Text → Json
+  | .ok t => Json.mkObj [("ok", .str (String.ofList t))]
+  | .error e => errToJson e
+
+/-- canonical form for the comparison: metadata of an axis left without any ID is not observable
+(an empty tuple, `None` after a write/read of the result) -/
+def canonT (t : Table Rat) : Table Rat :=
+  { t with omd := orNone t.omd, smd := orNone t.smd }
+
+def resAgree (a b : Except Err (Table Rat)) : Bool :=
+  match a, b with
+  | .ok x, .ok y => (tableToJson (canonT x)).compress == (tableToJson (canonT y)).compress
+  | .error e, .error e' => e == e'
+  | _, _ => false
+
+/-- requests:
+ `{"op":"subset","variant":…,"axis":…,"ids":[…],"full":table,"result":{"ok":table}|{"error":name},
+   "file":h5view | "doc":doc}`;
+ `{"op":"parsekey","text":…,"key":…}`; `{"op":"slicetext","text":…,"idxs":[…],"axis":…,"axis_md":…}`;
+ `{"op":"axisindices","doc":…,"ids":…,"axis":…}` -/
+def handle (req : Json) : R Json := do
+  match (← strF req "op") with
+  | "subset" =>
+    let v ← asVariant (← strF req "variant")
+    let ax ← axisF req "axis"
+    let ids ← listF asStr req "ids"
+    let full ← asTable (← fld req "full")
+    let res ← asRes (← fld req "result")
+    let (model, modelFull) ← (do
+      match v with
+      | .h5 | .cmdH5 => let f ← asH5 (← fld req "file"); pure (h5Subset f ids ax, some (fromFile f ax))
+      | .parseH5 => let f ← asH5 (← fld req "file"); pure (parseH5 f ids ax, some (fromFile f ax))
+      | .h5nomd => let f ← asH5 (← fld req "file"); pure (h5SubsetNoMd f ids ax, some (fromFile f ax))
+      | .jsonParse => let d ← asDoc (← fld req "doc"); pure (jsonSubset d ids ax, (docToTable d).toOption)
+      | .cmdJson => let d ← asDoc (← fld req "doc"); pure (cmdJson d ids ax, (docToTable d).toOption)
+      : R (Except Err (Table Rat) × Option (Table Rat)))
+    let vd := verdict full ids ax v res
+    -- the model's own view of "load everything" must be the table the real full read gave
+    let viewAgree := match modelFull with
+      | some mf => (tableToJson mf).compress == (tableToJson full).compress
+      | none => false
+    pure (Json.mkObj (verdictToJson vd ++
+      [("agree", .bool (resAgree model res)), ("view_agree", .bool viewAgree),
+       ("model_holds", .bool (holds full ids ax v model)), ("model", resToJson model)]))
+  | "parsekey" =>
+    let text ← strF req "text"
+    let key ← strF req "key"
+    pure (Json.mkObj [("model", textResToJson (directParseKey text.toList key.toList))])
+  | "slicetext" =>
+    let text ← strF req "text"
+    let idxs ← listF asNat req "idxs"
+    let ax ← axisF req "axis"
+    let axisMd ← strF req "axis_md"
+    pure (Json.mkObj [("model", textResToJson (cmdJsonText text.toList idxs axisMd.toList ax)),
+                      ("slice", textResToJson (directSliceDataText text.toList idxs ax))])
+  | "axisindices" =>
+    let d ← asDoc (← fld req "doc")
+    let ids ← listF asStr req "ids"
+    let ax ← axisF req "axis"
+    match getAxisIndices d ids ax with
+    | .error e => pure (Json.mkObj [("model", errToJson e)])
+    | .ok (idxs, recs) =>
+      pure (Json.mkObj [("model", Json.mkObj [("idxs", natsToJson idxs), ("ids", strsToJson (recs.map (·.id)))])])
+  | s => .error s!"bad op {s}"
+
 end Biom.C14
